@@ -19,6 +19,7 @@ type linkedPlan struct {
 	CCS    bool     `json:"ccs"`
 	Seed   int64    `json:"seed"`
 	Blocks []lblock `json:"blocks"`
+	Size   bool     `json:"size,omitempty"` // declare the content size in the header
 }
 
 type lblock struct {
@@ -130,7 +131,7 @@ func buildLinked(p linkedPlan) (frame, content []byte) {
 		}
 		prevLen = len(content) - start
 	}
-	o := ref.FrameOpts{Code: p.Code, Indep: false, BlockCS: p.BCS, ContCS: p.CCS}
+	o := ref.FrameOpts{Code: p.Code, Indep: false, BlockCS: p.BCS, ContCS: p.CCS, HasSize: p.Size, Size: uint64(len(content))}
 	return ref.EncodeFrame(o, blks, content), content
 }
 
